@@ -1759,7 +1759,13 @@ pub mod vlive {
     }
 
     pub async fn open_h2(core: &Core, sni: &str) -> Option<H2Session> {
-        let (client, server) = tokio::io::duplex(1 << 22);
+        open_h2_with(core, sni, 1 << 22).await
+    }
+
+    /// `capacity`: size of the in-memory transport (a small one makes the codec block in its writes
+    /// when the client reads slowly)
+    pub async fn open_h2_with(core: &Core, sni: &str, capacity: usize) -> Option<H2Session> {
+        let (client, server) = tokio::io::duplex(capacity);
         let codec = http2_codec::Http2Codec::new(core.verif_settings(), Transport(server), log_utils::IdChain::empty()).ok()?;
         let tunnel = core.verif_spawn_tunnel(Protocol::Http2, Box::new(codec), sni.to_string(), None);
         let (send, conn) = h2::client::handshake(client).await.ok()?;
@@ -1866,7 +1872,11 @@ pub mod vlive {
     }
 
     pub fn open_h1(core: &Core, sni: &str) -> H1Session {
-        let (client, server) = tokio::io::duplex(1 << 22);
+        open_h1_with(core, sni, 1 << 22)
+    }
+
+    pub fn open_h1_with(core: &Core, sni: &str, capacity: usize) -> H1Session {
+        let (client, server) = tokio::io::duplex(capacity);
         let codec = http1_codec::Http1Codec::new(core.verif_settings(), Transport(server), log_utils::IdChain::empty());
         let tunnel = core.verif_spawn_tunnel(Protocol::Http1, Box::new(codec), sni.to_string(), None);
         let (rd, wr) = tokio::io::split(client);
@@ -1887,6 +1897,18 @@ pub mod vlive {
             while !self.eof {
                 match self.rd.read(&mut buf).now_or_never() {
                     None => break,
+                    Some(Ok(0)) | Some(Err(_)) => self.eof = true,
+                    Some(Ok(n)) => self.received.extend_from_slice(&buf[..n]),
+                }
+            }
+        }
+
+        /// like [`poll`](Self::poll), but takes at most `max` bytes (a slow reader)
+        pub fn poll_some(&mut self, max: usize) {
+            let mut buf = vec![0u8; max.max(1)];
+            if !self.eof {
+                match self.rd.read(&mut buf).now_or_never() {
+                    None => {}
                     Some(Ok(0)) | Some(Err(_)) => self.eof = true,
                     Some(Ok(n)) => self.received.extend_from_slice(&buf[..n]),
                 }
